@@ -220,12 +220,22 @@ def check_partial(case):
             xc = float(obj.auc(L(1 - b), L(1 - a), x_axis="tnr"))
             require(abs(xc - ref) <= 1e-9, "pauc:x-complement",
                     lambda: f"{ctx}: auc({1 - b!r},{1 - a!r},x=tnr)={xc!r} expected {ref!r}")
+            # the axes under their documented alias names
+            al = [float(obj.auc(L(a), L(b), x_axis="far", y_axis="tar")), float(obj.auc(L(a), L(b), x_axis="far")),
+                  float(obj.auc(L(a), L(b), y_axis="tar"))]
+            require(all(v == got for v in al), "pauc:alias-axes",
+                    lambda: f"{ctx}: auc({a!r},{b!r}) = {got!r} on fpr/tpr but {al} on far/tar, far/tpr, fpr/tar")
+            al2 = (float(obj.auc(L(a), L(b), y_axis="frr")), float(obj.auc(L(1 - b), L(1 - a), x_axis="trr")))
+            require(al2 == (yc, xc), "pauc:alias-axes",
+                    lambda: f"{ctx}: y=frr gives {al2[0]!r} (fnr: {yc!r}), x=trr gives {al2[1]!r} (tnr: {xc!r})")
         require(abs(areas[(lo, mid)] + areas[(mid, up)] - areas[(lo, up)])
                 <= (1e-9 if stratum == "general" else 1e-9 * areas[(lo, up)] + 1e-24),
                 "pauc:additivity", lambda: f"{ctx}: {areas}")
         full = float(step_area(pos, neg, ep, en, sc, F(0), F(1)))
         sw = float(obj.auc(x_axis="tpr", y_axis="fpr"))
         require(abs(sw - (1 - full)) <= 1e-9, "pauc:swap-axes", f"{ctx}: {sw!r} vs {1 - full!r}")
+        sw2 = float(obj.auc(x_axis="tar", y_axis="far"))
+        require(sw2 == sw, "pauc:alias-axes", f"{ctx}: x=tar,y=far gives {sw2!r}, x=tpr,y=fpr gives {sw!r}")
     if 0 < lo < up < 1:
         inside = True
     lo_p, hi_p, lo_n, hi_n = min(pos), max(pos), min(neg), max(neg)
